@@ -60,17 +60,39 @@ impl Host {
             _ => CMD_MC,
         }
     }
+    /// the member names this host map defines IN THE CONFIGURATION UNDER TEST (a feature-gated
+    /// member is an unknown member where its feature is off)
     pub fn known_keys(self) -> &'static [&'static str] {
+        let tpp = crate::respmodel::tpp();
         match self {
             Host::McOptions | Host::GaOptions => &["rk", "up", "uv"],
-            Host::McExtensions => &["credProtect", "hmac-secret", "largeBlobKey", "thirdPartyPayment"],
-            Host::GaExtensions => &["hmac-secret", "largeBlobKey", "thirdPartyPayment"],
+            Host::McExtensions => {
+                if tpp {
+                    &["credProtect", "hmac-secret", "largeBlobKey", "thirdPartyPayment"]
+                } else {
+                    &["credProtect", "hmac-secret", "largeBlobKey"]
+                }
+            }
+            Host::GaExtensions => {
+                if tpp {
+                    &["hmac-secret", "largeBlobKey", "thirdPartyPayment"]
+                } else {
+                    &["hmac-secret", "largeBlobKey"]
+                }
+            }
             Host::McRp => &["id", "name", "icon", "url"],
             Host::McUser | Host::CmUser => &["id", "icon", "name", "displayName"],
-            Host::McExcludeDescriptor | Host::GaAllowDescriptor | Host::CmDescriptor | Host::McParam => &["id", "type", "alg"],
+            Host::McExcludeDescriptor | Host::GaAllowDescriptor | Host::CmDescriptor => &["id", "type"],
+            Host::McParam => &["type", "alg"],
         }
     }
 }
+
+/// every member name some host map knows (plus the relying party's legacy alias and a descriptor
+/// member of WebAuthn that the crate does not model): in any OTHER host these are unknown members,
+/// and exactly the ones a shared lookup table would confuse
+pub const ALL_MEMBER_NAMES: [&str; 16] =
+    ["rk", "up", "uv", "credProtect", "hmac-secret", "largeBlobKey", "thirdPartyPayment", "id", "name", "icon", "url", "displayName", "type", "alg", "transports", "minPinLength"];
 
 fn k(i: i64) -> Step {
     Step::Key(Value::int(i))
@@ -159,7 +181,7 @@ fn unknown_key(host: Host, src: &mut Src, used: &[Vec<u8>]) -> Value {
     let known = host.known_keys();
     for _ in 0..8 {
         let base = known[src.below(known.len())];
-        let cand: String = match src.below(9) {
+        let cand: String = match src.below(10) {
             0 => format!("{}x", base),
             1 => base[..base.len() - 1].to_string(),
             2 => {
@@ -171,6 +193,10 @@ fn unknown_key(host: Host, src: &mut Src, used: &[Vec<u8>]) -> Value {
             3 => String::new(),
             4 => base.to_uppercase(),
             5 => format!(" {}", base),
+            7 => {
+                // a name that another host map knows
+                ALL_MEMBER_NAMES[src.below(ALL_MEMBER_NAMES.len())].to_string()
+            }
             6 => {
                 // another spelling convention of the same name: snake_case, kebab-case, PascalCase, lower
                 let mut snake = String::new();
@@ -200,9 +226,7 @@ fn unknown_key(host: Host, src: &mut Src, used: &[Vec<u8>]) -> Value {
                 text_of_len(src, n)
             }
         };
-        if !known.contains(&cand.as_str())
-            && !["rk", "up", "uv", "id", "name", "icon", "url", "type", "alg", "displayName"].contains(&cand.as_str())
-            && !used.iter().any(|u| u == cand.as_bytes())
+        if !known.contains(&cand.as_str()) && !used.iter().any(|u| u == cand.as_bytes())
         {
             return Value::Text(cand.into_bytes());
         }
@@ -238,6 +262,9 @@ fn unknown_case(host: Host, src: &mut Src, obs: &mut Obs) -> CaseResult {
             // rejected or the result changed) is a known member of this host by now, and the
             // same value is then sent under a made-up key instead
             let adopted = {
+                // "adopted" = some value under this key is ACCEPTED AND CHANGES the decoded request
+                // (the crate stores it). A key whose values are merely refused for some types, while
+                // nothing is ever stored, is not a member - it is an unknown member handled badly.
                 let mut adopted = false;
                 for t in 0..7 {
                     let mut v = model.clone();
@@ -246,7 +273,8 @@ fn unknown_case(host: Host, src: &mut Src, obs: &mut Obs) -> CaseResult {
                     }
                     let mut msg = vec![cmd];
                     msg.extend_from_slice(&refcbor::encode(&v));
-                    if Request::deserialize(&msg) != Request::deserialize(&base) {
+                    let with = Request::deserialize(&msg);
+                    if with.is_ok() && with != Request::deserialize(&base) {
                         adopted = true;
                     }
                 }
